@@ -820,7 +820,7 @@ pub(crate) fn c_drain<const N: usize>() {
         if m.len == 0 { check!(d.next().is_none() && d.next_back().is_none() && d.len() == 0, "[C09] drain: exhausted drain is not fused"); }
         // nothing destroyed yet, nothing duplicated
         let mut rest = sub_seq(&old, 0, a); rest.append(&m); rest.append(&sub_seq(&old, e, old.len));
-        check!(ledger_ok(&rest, &held), "[C03,C09] drain: element destroyed or duplicated while draining");
+        check!(ledger_ok(&rest, &held), "[C03,C04,C09] drain: element destroyed or duplicated while draining");
         drop(d);
     }
     unwatch();
@@ -829,7 +829,7 @@ pub(crate) fn c_drain<const N: usize>() {
     let mut want = sub_seq(&old, 0, a); want.append(&sub_seq(&old, e, old.len));
     check!(new.eq(&want), "[C01,C09] drain: buffer is not (elements before the range) ++ (elements after the range) in order");
     check!(b.len() == old.len - (e - a), "[C01,C09] drain: wrong length afterwards");
-    check!(ledger_ok(&new, &held), "[C03,C09] drain: a drained element not handed out was not destroyed exactly once (or another element was)");
+    check!(ledger_ok(&new, &held), "[C03,C04,C09] drain: a drained element not handed out was not destroyed exactly once, or an element already handed out (a moved-out slot) was destroyed");
     check!(relocated(&old_slots, &slots_of(&b), next_id()) <= old.len - e, "[C20] drain(i..j) relocates more than len-j surviving elements");
     nd::reached();
     core::mem::forget(b);
